@@ -246,7 +246,9 @@ def run(ctx):
         "the hand-over to the bus thread is replaced by in-line stepping of the real handleSend/handleReceive "
         "(StepHandler::addRequest); the scripted slave answers every telegram",
         "time() stands still (virtual clock): cache ages are inputs, MainLoop's periodic tasks never fire",
-        "level names over {a,b}, lists over {a,b,;,*}; three message layouts (read+write, + passive twin, + same name in a second circuit)",
+        "level names over {a,b}, lists over {a,b,;,*}; message layouts: read+write, + passive twin, + same name in a second circuit, "
+        "ambiguous ACLs, and (5) two conditional variants of one circuit/name with different levels selected by a value seen on the bus "
+        "(by-name telnet reads only; listings may skip the unavailable variant)",
         "after a FAILED auth both readings (earlier user kept / back to default) are accepted; 'usage' answers are accepted as refusals; "
         "an HTTP request with bad credentials may be refused or served with the default levels",
         "find -l, listen, define and the MQTT/KNX classes themselves are outside (sinks are exercised through a DataSink subclass)",
